@@ -1,7 +1,7 @@
 (* C05 — Unplayable tracks and failing playback backends are skipped and contained. *)
 From Coq Require Import ZArith List Bool.
 From Common Require Import Res.
-From Core Require Import World Model Step Reach Res_NoRaise Proofs_C05.
+From Core Require Import World Model Step Reach Res_NoRaise Proofs_C05 Proofs_C03b Proofs_C05b.
 Import ListNotations.
 Open Scope Z_scope.
 
@@ -32,3 +32,31 @@ Theorem C05_consume_drops_refused :
   exists w', mark_unplayable shuf (Some x) w = (Ok tt, w') /\ ~ In (tlid x) (map tlid (World.tl w')).
 Proof. exact (fun shuf => consume_drops_refused_lemma shuf 0%nat). Qed.
 Print Assumptions C05_consume_drops_refused.
+
+(* T6: next() tries the FOLLOWING candidates: for every tracklist pre ++ c :: us ++ x :: post
+   without duplicate IDs in which every entry of us is unplayable in any of the four ways
+   (backend refuses, no URI, raises, no backend for the scheme) and x is playable, next() from a
+   state settled on c (sequential order, consume off) ends - once the notifications are
+   delivered - on x, still playing, the audio layer on x's URI, nothing pending, tracklist
+   untouched; however long the unplayable run is. *)
+Theorem C05_next_tries_following_candidates :
+  forall shuf f us pre c x post w,
+  World.tl w = pre ++ c :: us ++ x :: post -> NoDup (map tlid (World.tl w)) ->
+  settled_on w c -> pstate w = Playing -> consume w = false -> random w = false -> repeat w = false ->
+  script w = [] -> (forall u, In u us -> kind_of w (trk u) <> Playable) -> kind_of w (trk x) = Playable ->
+  let w' := run_world shuf (S (length us + f)) w [Next; Deliver; Deliver; Deliver; Deliver] in
+  current w' = Some x /\ pstate w' = Playing /\ pending w' = None /\ queue w' = []
+  /\ a_uri w' = Some (trk x) /\ a_state w' = Playing /\ World.tl w' = World.tl w.
+Proof. exact next_skips_unplayable. Qed.
+Print Assumptions C05_next_tries_following_candidates.
+
+(* non-vacuity: one entry of each failure kind between two playable ones *)
+Example C05_skip_example :
+  let w := run_world shuf_concrete 50 (init_world 50 [Playable; Refuse; NoUri; Raises; NoBackend; Playable]
+                                         [Some 900; Some 900; Some 900; Some 900; Some 900; Some 900] [] None None)
+             [Add [0; 1; 2; 3; 4; 5] None; Play None; Deliver; Deliver; Deliver; Deliver] in
+  let w' := run_world shuf_concrete 50 w [Next; Deliver; Deliver; Deliver; Deliver] in
+  option_map tlid (current w) = Some 1 /\ option_map tlid (current w') = Some 6 /\ pstate w' = Playing
+  /\ map fst (attempts w') = [5; 3; 2; 1; 0].
+Proof. vm_compute. repeat split; reflexivity. Qed.
+Print Assumptions C05_skip_example.
